@@ -367,3 +367,62 @@ Proof.
   cbv zeta in RB. rewrite RB. reflexivity.
 Qed.
 End Refuse.
+
+(** ---- constructors: a fresh root, then the two assignments ---- *)
+Section Ctor.
+Variables (typed asrt : bool).
+
+Theorem construct_run fu p xs s : let h := heap_of s in
+  Inv h -> (match p with Some q => q < length h | None => True end) ->
+  NoDup xs ->
+  let n := length h in
+  let h1 := h ++ [empty_cell] in
+  let h2 := eff_set_parent h1 n p in
+  (forall x, In x xs -> x < length h /\ ~ In x (ancestors_of h2 n)) ->
+  construct typed asrt no_faults (S fu) (opt_value p) (Some (CList (map VNode xs))) s =
+  (Ok n, st_after s (match xs with [] => h2 | _ => eff_set_children h2 n xs end)
+           (log_set_parent h1 n p ++ match xs with [] => [] | _ => fst (log_set_children h2 n xs) end)).
+Proof.
+  intros h I Hp ND n h1 h2 B.
+  unfold construct. unfold mbind at 1. unfold get_heap. cbn [fst snd]. fold h.
+  unfold alloc. fold n. fold h1.
+  unfold mbind at 1. unfold put_heap. cbn [fst snd].
+  set (s1 := {| heap_of := h1; cnt := cnt s; log := log s |}).
+  assert (I1 : Inv h1) by (apply alloc_inv; exact I).
+  assert (L1 : length h1 = S n) by (unfold h1; rewrite app_length; simpl; lia).
+  assert (Hn1 : n < length h1) by lia.
+  assert (Hp1 : match p with Some q => q < length h1 | None => True end) by (destruct p; [lia|exact Logic.I]).
+  assert (Pn : parent h1 n = None).
+  { unfold parent, h1, n. rewrite get_alloc, get_beyond by lia. reflexivity. }
+  assert (LR : loop_refused h1 n p = false).
+  { unfold loop_refused. destruct p as [q|]; [|apply andb_false_r].
+    rewrite Pn. cbn [oid_eqb option_eqb negb andb].
+    destruct (Nat.eqb_spec q n); [lia|]. cbn [orb].
+    destruct (mem (ancestors_of h1 q) n) eqn:M; [|reflexivity]. exfalso.
+    apply mem_In in M. unfold ancestors_of in M. destruct (path_rev_inv h1 q I1) as [lq [Cq Pq]]. rewrite Pq in M.
+    (* every node on a chain is the parent of someone: n has no children in h1 *)
+    assert (G : forall x l, chain h1 x l -> In n l -> exists c, parent h1 c = Some n).
+    { clear. intros x l C. induction C as [x P|x pp l P C IH]; intros Hin; [destruct Hin|].
+      destruct Hin as [->|Hin]; eauto. }
+    destruct (G _ _ Cq M) as [c Pc]. apply (inv_link _ I1) in Pc.
+    unfold children, h1, n in Pc. rewrite get_alloc, get_beyond in Pc by lia. destruct Pc. }
+  unfold mbind at 1.
+  pose proof (set_parent_run typed asrt n p s1 I1 Hn1 Hp1) as R. cbv zeta in R. cbn [heap_of s1] in R.
+  rewrite LR in R. rewrite R. clear R. fold h2.
+  set (s2 := st_after s1 h2 (log_set_parent h1 n p)).
+  assert (I2 : Inv h2) by (apply (eff_inv typed asrt); auto).
+  assert (L2 : length h2 = S n) by (unfold h2; rewrite eff_length; exact L1).
+  destruct xs as [|x0 xs'].
+  - cbn [truthy map]. unfold mbind, ret. cbn [fst snd]. unfold s2, st_after. cbn [heap_of cnt log].
+    rewrite !app_nil_r. reflexivity.
+  - cbn [truthy map]. unfold mbind at 1.
+    assert (B2 : forall x, In x (x0 :: xs') -> x < length (heap_of s2) /\ x <> n /\ ~ In x (ancestors_of (heap_of s2) n)).
+    { intros x Hx. cbn [heap_of s2 st_after]. destruct (B x Hx) as [B1 B3]. repeat split; auto; lia. }
+    change (VNode x0 :: map VNode xs') with (map VNode (x0 :: xs')).
+    rewrite (set_children_run typed asrt fu n (x0 :: xs') s2 I2 ltac:(cbn [heap_of s2 st_after]; lia) ND B2).
+    unfold mbind, ret. cbn [fst snd heap_of s2 st_after]. unfold st_after. cbn [heap_of cnt log].
+    f_equal. f_equal.
+    + rewrite app_length. unfold s2, st_after, s1. cbn [cnt]. lia.
+    + unfold s2, st_after, s1. cbn [log]. rewrite app_assoc. reflexivity.
+Qed.
+End Ctor.
